@@ -6,6 +6,7 @@ verus! {
 //@include specs/json_number.rs
 //@include specs/json_grammar.rs
 //@include units/frag_parser.vt.rs
+//@include specs/scalar_chars.rs
 //@include units/frag_container.vt.rs
 
 } // verus!
